@@ -69,8 +69,10 @@ impl SocketRecv for DealerSocket {
                 Some((_peer_id, Ok(_))) => {
                     // Ignore non-message frames
                 }
-                Some((_peer_id, Err(e))) => {
-                    // Handle potential errors from the fair queue
+                Some((peer_id, Err(e))) => {
+                    // A stream that failed keeps failing: forget the peer so the
+                    // error is reported once and its connection is released.
+                    self.backend.peer_disconnected(&peer_id);
                     return Err(e.into());
                 }
                 None => {
